@@ -382,8 +382,9 @@ func c09UnquoteStream(c *Cfg, r *Rng) {
 			c.Count("unquote/" + strings.ReplaceAll(ans, " ", "-"))
 		}
 		// the scanner and the literal package must agree on which spellings are valid
-		tok, _, whole, nerr, span := c09ScanOne(lit)
-		scanOK := !span && tok == token.STRING && whole && nerr == 0
+		tok, slit, whole, nerr, span := c09ScanOne(lit)
+		// one STRING token whose text is the whole input (no trailing blanks/comments)
+		scanOK := !span && tok == token.STRING && whole && nerr == 0 && (slit == lit || c09IsMultilineLit(lit))
 		litOK := strings.HasPrefix(ans, "ok")
 		if c09IsMultilineLit(lit) {
 			// multi-line literals: CR handling and Unicode white space before the closing
@@ -528,7 +529,7 @@ type c09PosFail struct{ class, what string }
 // do not start before the previous sibling starts.  Comments are attached to nodes they
 // precede or follow and are only checked for lying within the input.  Returns the first
 // failure of each class.
-func c09WellPositioned(root ast.Node, size int) (fails []c09PosFail, nodes int) {
+func c09WellPositioned(root ast.Node, size int) (fails []c09PosFail, nodes int, rawOver int) {
 	type frame struct {
 		n        ast.Node
 		lo, hi   int
@@ -559,6 +560,13 @@ func c09WellPositioned(root ast.Node, size int) (fails []c09PosFail, nodes int) 
 			if lo < 0 || hi > size || lo > hi {
 				bad("node-outside-input", "%T at [%d,%d) outside input of %d bytes", n, lo, hi, size)
 			}
+			// token.Pos.Offset clamps to [0,size], so a raw position past EOF is not observable
+			// through the public accessors.  The raw overshoot (recovered by shifting the
+			// position back by the file size first) is one byte on the unchanged tree for
+			// placeholders at EOF (e.g. the missing selector of `aa.`); counted, not enforced.
+			if size > 0 && n.End().Add(-size).Offset() > 0 {
+				rawOver++
+			}
 			if !isComment && !isCG {
 				// nearest enclosing non-comment frame with a range
 				for i := len(stack) - 1; i >= 0; i-- {
@@ -583,9 +591,9 @@ func c09WellPositioned(root ast.Node, size int) (fails []c09PosFail, nodes int) 
 					fr := &stack[len(stack)-1]
 					if _, c1 := fr.n.(*ast.CommentGroup); !c1 {
 						if lo < fr.lastKid {
-							bad("sibling-order", "%T at %d starts before its previous sibling at %d (parent %T)", n, lo, fr.lastKid, fr.n)
+							bad("sibling-order", "%T at %d starts before the end %d of its previous sibling (parent %T)", n, lo, fr.lastKid, fr.n)
 						}
-						fr.lastKid = lo
+						fr.lastKid = hi
 					}
 				}
 			}
@@ -595,13 +603,14 @@ func c09WellPositioned(root ast.Node, size int) (fails []c09PosFail, nodes int) 
 	}, func(n ast.Node) {
 		stack = stack[:len(stack)-1]
 	})
-	return fails, nodes
+	return fails, nodes, rawOver
 }
 
 type c09ParseResult struct {
 	fails   []c09PosFail
 	nodes   int
 	nerrs   int
+	rawOver int
 	timeout bool
 }
 
@@ -656,8 +665,9 @@ func c09ParseOnce(src []byte, expr bool, comments bool) (res c09ParseResult) {
 			}
 		}
 		if root != nil {
-			f, n := c09WellPositioned(root, len(src))
+			f, n, ro := c09WellPositioned(root, len(src))
 			r.nodes = n
+			r.rawOver = ro
 			r.fails = append(r.fails, f...)
 		}
 	}()
@@ -680,6 +690,9 @@ func c09ParseCase(c *Cfg, src []byte, origin string) {
 		}
 		for _, f := range r.fails {
 			c.Direct(false, f.class, mode.name+": "+f.what+" ["+origin+"]", map[string]string{"src_hex": H(string(src)), "src": strconv.QuoteToASCII(string(src)), "mode": mode.name, "origin": origin})
+		}
+		if r.rawOver > 0 {
+			c.Count("parser/raw-end-past-eof-clamped-by-Offset(informational)")
 		}
 		if r.nerrs > 0 {
 			c.Count("parser/" + mode.name + "/with-errors")
